@@ -34,7 +34,14 @@ def options(rng):
     o = M.options(rng)
     o["words"] = sorted(set(o["words"]) | set(rng.sample(["netconan", "removed", "scrubbed", "sensitive", "line"], rng.randint(0, 3))))
     o["asns"] = sorted(set(o["asns"]) | set(rng.sample(["10", "255", "1", "0", "65000", "24", "64"], rng.randint(0, 4))))
+    if rng.random() < 0.5:
+        # listed words that overlap address text (hex words, digits): the stage order decides what they see
+        o["words"] = sorted(set(o["words"]) | set(rng.sample(["cafe", "beef", "db8", "10", "ace", "fe80", "192"], rng.randint(1, 3))))
     return o
+
+
+OVERLAP_LINES = ["ipv6 address 2001:db8:cafe::1/64\n", " ip address 10.10.10.10 255.255.255.0\n", "neighbor fe80::beef:cafe remote-as 65000\n",
+                 "ntp server 192.0.2.10 key 10\n", " description ace-cafe uplink 2001:db8::ace\n", "route 10.192.10.0/24 via fe80::10\n"]
 
 
 def run_one(nc, opts, feats, text, undo):
@@ -54,6 +61,9 @@ def check_case(ctx, case):
     undo = case["undo"]
     text = M.gen_text(rng, opts, rng.randint(2, 30), eols=("\n",), final_newline=rng.random() < 0.8)
     src = M.render_text(text)
+    if src and not src.endswith("\n"):
+        src += "\n"
+    src += "".join(rng.sample(OVERLAP_LINES, rng.randint(1, 4)))
     combined = run_one(nc, opts, feats, src, undo)
     chained = src
     for f in ORDER:
